@@ -116,7 +116,7 @@ def check_ladder(case, ctx):
     s0 = M.smax(J)
     w0 = rec0["weights"]
     wl = float(np.abs(w0).sum()) if w0 is not None and w0.shape == (m,) else 1.0
-    scale0 = max(s0 * max(wl, 1.0), float(np.linalg.norm(base)), 1e-300)
+    scale0 = max(s0 * max(wl, 1.0, E.config_l1(desc)), float(np.linalg.norm(base)), 1e-300)
     ne = desc.get("norm_eps", 1e-4)
     conflict = M.has_conflict(J)
     rungs = [10.0 ** k for k in LADDER[dname]] + FINE
